@@ -373,32 +373,93 @@ def _normalised_after(cfg, head) -> bool:
 
 
 def asgi_positions(run, v: Verdicts, f):
-    """_pos advances by exactly the length of what each segment yields / returns."""
+    """_pos advances by exactly the length of what each segment yields / returns -- and, in a generator, the accounting
+    for a chunk is complete BEFORE the chunk is yielded: when the consumer holds chunk k (the generator is suspended at
+    the `yield`, and stays so for good if the consumer leaves its loop), the position equals the bytes handed out so far
+    and the budget no longer contains the bytes of a received chunk.  An update that is only reachable by resuming the
+    generator is lost on `break` / `aclose()`.
+    Witness: `async for chunk in req.stream: assert req.stream.tell() == seen + len(chunk)`; `break` after the first chunk."""
     cfg = cfg_of(f, run.project)
     produces = any(isinstance(x, (ast.Yield, ast.YieldFrom)) or (isinstance(x, ast.Return) and x.value is not None) for x in walk_self(f.node))
     if not produces:
         return
+    track = _tracker(None)
+
+    def on_node(env, n, label):
+        # state in which the generator was suspended at its latest `yield`: nothing runs between a `yield` statement and the
+        # node that follows it, so the state seen on arrival there is the state the consumer observes while it holds the chunk
+        k = sum(1 for kind, _v, _n in env.log if kind == 'yield')
+        if k > env.ghost.get('ysnap_n', 0):
+            env.ghost['ysnap_n'] = k
+            env.ghost['ysnaps'] = env.ghost.get('ysnaps', ()) + ((k, env.eval(_POS_E), env.eval(_BUDGET_E)),)
+        track(env, n, label)
+
     for start, steps, end in segments(cfg):
         env = _Env(_on_call)
         pos0 = env.declare(POS, 'nat')
-        env.declare(BUDGET, 'nat')
-        for e in run_steps(env, cfg, steps, _tracker(None)):
+        rem0 = env.declare(BUDGET, 'nat')
+        for e in run_steps(env, cfg, steps, on_node):
             if any(k == 'selfcall' for k, _v, _n in e.log):
                 continue        # delegation: the callee accounts for itself
             out, last = Lin.const(0), None
+            yields = []         # (running total of the bytes handed out, yield node)
             for kind, val, node in e.log:
                 if kind == 'yield' or (kind == 'return' and val is not NONE):
                     out = out + e.length(val, short(node, 30))
                     last = node
+                    if kind == 'yield':
+                        yields.append((out, node))
             dpos = e.eval(_POS_E) - pos0
             ok = isinstance(dpos, Lin) and e.prove_eq(dpos, out)
             cons = e.ghost.get('last_pos', last if last is not None else f.name)
+            wit = flow.describe_path(cfg, [s[0] for s in steps])
             if not ok and (not isinstance(dpos, Lin) or (dpos - out).tainted()):
                 v.unknown('%s: %s' % (f.qual, '; '.join(e.notes[:2])))
                 continue
             v.note(f, 'position', 'tell() advances by exactly the length of the data yielded/returned', ok, cons,
-                   'position advances by %r while %r bytes are yielded/returned' % (dpos, out), flow.describe_path(cfg, [s[0] for s in steps]),
+                   'position advances by %r while %r bytes are yielded/returned' % (dpos, out), wit,
                    'tell() disagrees with the number of bytes the application received')
+            if not yields:
+                continue
+            # ---- the state at each suspension point
+            snaps = list(e.ghost.get('ysnaps', ()))
+            if len(snaps) < len(yields):
+                snaps.append((len(yields), e.eval(_POS_E), e.eval(_BUDGET_E)))     # suspended at the end of the segment
+            received = e.ghost.get('event') is not None
+            for (k, pos_k, rem_k) in snaps:
+                out_k, ynode = yields[k - 1]
+                ystmt = 'yield ' + unparse(ynode.value) if getattr(ynode, 'value', None) is not None else unparse(ynode)
+                what = 'the position accounts for a chunk before the chunk is yielded (tell() is right while the consumer holds it and after it leaves the loop)'
+                if not isinstance(pos_k, Lin) or (pos_k - pos0 - out_k).tainted():
+                    v.unknown('%s: position at `%s` not understood: %s' % (f.qual, ystmt, '; '.join(e.notes[:2])))
+                elif e.prove_eq(pos_k - pos0, out_k):
+                    v.note(f, 'position at yield', what, True)
+                elif ok:
+                    # the segment as a whole is right: the store that accounts for this chunk sits behind the `yield`
+                    v.note(f, 'position at yield', what, False, ystmt,
+                           'at `%s` the position has advanced by %r while %r bytes have been handed out: the update for this chunk is only '
+                           'performed when the generator is resumed' % (ystmt, pos_k - pos0, out_k), wit,
+                           'async for chunk in req.stream: tell() lags by the chunk being held; after `break` (or aclose()) the generator is '
+                           'closed at the yield and tell() stays short for the rest of the request')
+                # (not ok: the segment total is already reported above)
+                if not received:
+                    continue        # a chunk served from the receive buffer: the budget only counts what is still to be received
+                whatb = 'the budget no longer contains a received chunk when that chunk is yielded'
+                if not isinstance(rem_k, Lin):
+                    v.unknown('%s: budget at `%s` is not a number' % (f.qual, ystmt))
+                    continue
+                cases = _fit_cases(e, Lin.atom(('len', ('sub', e.ghost['event'], 'body'))), rem0)
+                if cases and all(c.prove_eq(_resolve(c, rem_k), _resolve(c, rem0 - out_k)) or c.prove_eq(_resolve(c, rem_k), 0)
+                                 or c.prove_le(_resolve(c, rem_k), _resolve(c, rem0 - out_k)) for c in cases):
+                    v.note(f, 'budget at yield', whatb, True)
+                elif Env.same(rem_k, rem0) and not e.prove_eq(out_k, 0):
+                    v.note(f, 'budget at yield', whatb, False, ystmt,
+                           'at `%s` the budget still has the value it had when the event was received (%r) although %r bytes of that event '
+                           'are being handed out: the deduction is only performed when the generator is resumed' % (ystmt, rem_k, out_k), wit,
+                           'the consumer leaves `async for chunk in req.stream` after a chunk: the budget still counts that chunk, a following '
+                           'read()/exhaust() takes up to Content-Length further bytes from receive()')
+                else:
+                    v.unknown('%s: cannot relate the budget %r at `%s` to the bytes handed out %r' % (f.qual, rem_k, ystmt, out_k))
 
 
 # ---------------------------------------------------------------------------
@@ -763,22 +824,97 @@ def lazy_wrapping(run):
     other = [e for e in exprs if not from_header(e) and not const_nat(e)]
     run.check(bool(hdr) and not other, 'WSGI: the wrapper\'s length is `self.content_length or <n>` (missing header -> 0), or a constant fallback',
               host, other[0] if other else call, runtime_witness='a request without / with a wrong length source: bounded_stream.read() blocks or over-reads')
-    # invalid header -> 0
+    # A constant budget is the fallback for an INVALID header and for nothing else: it may reach the constructor only on
+    # paths that come through a handler catching HTTPInvalidHeader around the header read.  Whatever else the request looks
+    # like (method, content type, options), the budget is the declared length.
     parent = enclosing_map(host.node)
+
+    def catches_invalid_header(h):
+        types = [None] if h.type is None else (h.type.elts if isinstance(h.type, ast.Tuple) else [h.type])
+        for t in types:
+            q = p.resolve_expr(host.module, t, host) if t is not None else 'builtins.BaseException'
+            if q and (q == 'falcon.errors.HTTPInvalidHeader' or p.is_subclass('falcon.errors.HTTPInvalidHeader', q)):
+                return True
+        return False
+
     mapped = False
-    for e in hdr:
-        child = e
-        for a in ancestors(e, parent):
-            if isinstance(a, ast.Try) and any(child is s for s in a.body):
-                for h in a.handlers:
-                    types = [None] if h.type is None else (h.type.elts if isinstance(h.type, ast.Tuple) else [h.type])
-                    for t in types:
-                        q = p.resolve_expr(host.module, t, host) if t is not None else 'builtins.BaseException'
-                        if q and (q == 'falcon.errors.HTTPInvalidHeader' or p.is_subclass('falcon.errors.HTTPInvalidHeader', q)):
-                            if isinstance(arg, ast.Name) and any(isinstance(s, ast.Assign) and const_nat(s.value) and any(isinstance(t2, ast.Name) and t2.id == arg.id for t2 in s.targets)
-                                                                 for b in h.body for s in walk_self(b)):
-                                mapped = True
-            child = a
+    if srcs:
+        # (the CFG does not model a property read as raising: which handler a store sits in is read from the syntax,
+        # which stores reach the constructor on the normal paths from the CFG)
+        cfg = cfg_of(host, p)
+        run.use_cfg(cfg)
+        hdr_stmts = [s for s in srcs if from_header(s.value)]
+        guarded = {}            # id(header-read statement) -> handlers around it that catch HTTPInvalidHeader
+        for s in hdr_stmts:
+            child = s
+            for a in ancestors(s, parent):
+                if isinstance(a, ast.Try) and any(child is b for b in a.body):
+                    guarded.setdefault(id(s), []).extend(h for h in a.handlers if catches_invalid_header(h))
+                child = a
+        legit_handlers = [h for hs in guarded.values() for h in hs]
+
+        def handler_of(s):
+            """the except handler whose body the statement sits in (innermost), or None"""
+            child = s
+            for a in ancestors(s, parent):
+                if isinstance(a, ast.ExceptHandler) and any(child is b for b in a.body):
+                    return a
+                child = a
+            return None
+
+        def binds(n):
+            return any(isinstance(x, ast.Name) and x.id == arg.id and isinstance(x.ctx, (ast.Store, ast.Del)) for x in ast.walk(n))
+
+        stmt_of = {id(s): cfg.nodes_for(s) for s in srcs}
+        known = {i for ids in stmt_of.values() for i in ids}
+        all_defs = {n.id for n in cfg.live_nodes() if n.kind in ('stmt', 'iter', 'with', 'handler')
+                    and any(isinstance(x, ast.Name) and x.id == arg.id and isinstance(x.ctx, (ast.Store, ast.Del)) for x in n.walk())}
+        if all_defs - known:
+            raise UnknownIdiom('%s: `%s` is also bound by `%s`' % (host.qual, arg.id, short(cfg.node(sorted(all_defs - known)[0]).text(), 40)))
+        sink = [n.id for n in cfg.live_nodes() if n.kind in ('stmt', 'test') and any(x is call for x in n.walk())]
+        if not sink:
+            raise AnchorError('%s: CFG node of the constructor call not found' % host.qual)
+
+        def reaches(s, goals):
+            for d in stmt_of[id(s)]:
+                starts = [y for (y, l) in cfg.succ[d] if l != 'exc']
+                path = flow.find_path(cfg, starts, goals, avoid_nodes=known - set(goals))
+                if path is not None:
+                    return [d] + path
+            return None
+
+        what = 'WSGI: on every path the budget handed to the wrapper is the declared Content-Length; a constant only stands in for an invalid header'
+        n_hdr, unknown = 0, []
+        for s in srcs:
+            if from_header(s.value):
+                n_hdr += reaches(s, sink) is not None
+            elif const_nat(s.value):
+                h = handler_of(s)
+                if h is not None and any(h is x for x in legit_handlers):
+                    mapped = True
+                    run.ok(what + ' (stored in the HTTPInvalidHeader handler around the header read)', host.loc(s), s)
+                    continue
+                if h is not None:
+                    unknown.append('%s: `%s` in a handler that does not guard the header read' % (host.qual, short(s, 40)))
+                    continue
+                direct = reaches(s, sink)
+                if direct is not None:
+                    run.fail(what + ': this constant reaches the constructor on a path where reading the header did not fail', host, s,
+                             witness=flow.describe_path(cfg, direct),
+                             runtime_witness='a request with Content-Length: 43 and 43 bytes of body for which the condition on the path holds: '
+                                             'bounded_stream reports eof at once and read() returns b"" while the body sits unread in wsgi.input')
+                    continue
+                # a default set beforehand that survives only when the guarded header read raises into a handler that leaves it alone
+                for t in hdr_stmts:
+                    hs = guarded.get(id(t), [])
+                    if hs and stmt_of[id(t)] and reaches(s, stmt_of[id(t)]) is not None \
+                            and all(not binds(h2) and not any(isinstance(x, (ast.Return, ast.Raise)) for b in h2.body for x in ast.walk(b)) for h2 in hs):
+                        mapped = True
+                        run.ok(what + ' (default kept only when the guarded header read raises HTTPInvalidHeader)', host.loc(s), s)
+        run.check(n_hdr > 0, 'WSGI: the header-derived length reaches the constructor', host, call,
+                  runtime_witness='the wrapper is never given the declared length: bounded_stream.read() returns nothing / over-reads')
+        if unknown and not other:
+            raise UnknownIdiom('; '.join(unknown[:2]))
     run.check(mapped, 'WSGI: an invalid Content-Length (HTTPInvalidHeader) is mapped to a zero-length body stream', host,
               hdr[0] if hdr else call, runtime_witness='Content-Length: abc -> req.bounded_stream raises instead of yielding an empty body')
     # ---- ASGI
